@@ -521,7 +521,24 @@ fn cold_start(ctx: &Ctx, st: &mut Stats, seed: u64, threads: usize, njobs: usize
             return;
         }
     };
-    let o = match std::process::Command::new(exe).args(["c14-child", &seed.to_string(), &threads.to_string(), &njobs.to_string()]).output() {
+    // every second cold start also happens in ANOTHER process environment than the reference's (cleared and refilled
+    // from a profile of commonly consulted variables - locale, terminal, time zone ... -, every other variable
+    // answered as if set, unwritable standard error, skewed wall clock): "same input, same options" must give the same
+    // symbol, SVG, PNG and terminal text in any process
+    let hostile = seed & 1 == 1;
+    let which = (seed >> 1) as usize % 4;
+    let mut cmd = std::process::Command::new(exe);
+    cmd.args(["c14-child", &seed.to_string(), &threads.to_string(), &njobs.to_string()]);
+    let spy_log = std::env::var_os("VCHECK_TARGET_DIR").map(std::path::PathBuf::from).unwrap_or_else(|| ctx.root.join("harness/target")).join("scratch").join(format!("c14-envspy-{}-{seed:x}.log", std::process::id()));
+    if hostile {
+        if let Some(d) = spy_log.parent() {
+            let _ = std::fs::create_dir_all(d);
+        }
+        if !crate::relstage::hostile_environment(&mut cmd, &ctx.root, which, ["1", "C", "yes", "POSIX"][(seed >> 3) as usize % 4], &spy_log) {
+            st.inconclusive("cold start: harness/shim/envspy.so is missing (run ./setup.sh)".to_string());
+        }
+    }
+    let o = match cmd.output() {
         Ok(o) => o,
         Err(e) => {
             st.inconclusive(format!("cold start: cannot spawn child: {e}"));
@@ -552,10 +569,15 @@ fn cold_start(ctx: &Ctx, st: &mut Stats, seed: u64, threads: usize, njobs: usize
         return;
     }
     st.count("cold_start_digests_compared", compared);
+    if hostile {
+        st.count("cold_starts_in_another_process_environment", 1);
+    }
+    let _ = std::fs::remove_file(&spy_log);
     st.count("cold_start_processes", 1);
     st.distinct(mix(seed ^ 0xc01d, threads as u64));
     if let Some((t, i)) = bad {
-        st.violation(ID, "cold-start-race", format!("in a fresh process whose {threads} threads made their first calls at the same moment, thread {t} computed a different result for job {i} than the single-threaded reference"), j.to_json());
+        let env_note = if hostile { format!(" (the child's process environment differed from the reference's: profile {which}: {}; names consulted besides the harness's own: {:?})", crate::relstage::describe_profile(which), std::fs::read_to_string(&spy_log).unwrap_or_default().lines().filter(|l| !["VERIF_", "VCHECK_", "RUST_", "ENVSPY_"].iter().any(|p| l.split(' ').nth(1).unwrap_or("").starts_with(p))).map(|l| l.to_string()).collect::<Vec<_>>()) } else { String::new() };
+        st.violation(ID, if hostile { "process-environment-dependence" } else { "cold-start-race" }, format!("in a fresh process whose {threads} threads made their first calls at the same moment, thread {t} computed a different result for job {i} than the single-threaded reference{env_note}"), j.to_json());
     }
 }
 
